@@ -370,3 +370,43 @@ def rule_exec_db(ctx, R):
         if not (ok and from_read):
             R.finding(HE, "exec-db:not-reread-each-iteration",
                       "EXEC hands a queued command a database that was not read from the connection earlier in the same iteration (line %d): after a queued SELECT (in any spelling the dispatcher accepts) the commands behind it still run in the old database" % b.bb_line(e), b.loc(e))
+
+
+def rule_wake_db(ctx, R):
+    """`completed later as a blocking pop`: the wake path acts on the database the client blocked
+    in -- the one recorded in the wake-up request / registration -- not on whatever the connection
+    has selected by the time it is served (a SELECT pipelined behind the BLPOP runs while the
+    connection is already blocked)"""
+    import json
+    w = ctx.prog.need(SERVER + "wake_client")
+    dbp, dbfields, dbup = db_flow(ctx)
+    n = 0
+    WK = "network::blocking::WakeupRequest.db"
+    for body in shared.closure_tree(ctx, w):
+        k = 0
+        for (i, a, why) in db_positions(ctx, body, dbp, dbfields, dbup):
+            if not why.startswith("arg:"):
+                continue
+            n += 1
+            P, fields = _origins_with_closures(ctx, body, a)
+            fields = set(fields)
+            # a captured variable: look at what the enclosing function put into the capture
+            if body.kind == "Closure":
+                enc = ctx.prog.bodies.get(body.encl)
+                for r in P.roots:
+                    if r[0] == "upvar" and enc is not None:
+                        ui = _upvar_index(r)
+                        for x, bb in enumerate(enc.bbs):
+                            for st in bb["s"]:
+                                if st["k"] == "=" and st["r"]["k"] == "agg" and st["r"]["a"] == "closure:" + body.fn and ui is not None and ui < len(st["r"]["o"]) and not op_is_const(st["r"]["o"][ui]):
+                                    fields |= set(_origins_with_closures(ctx, enc, st["r"]["o"][ui])[1])
+            from_request = WK in fields or "network::connection::BlockedState.keys" in fields
+            from_conn = "network::connection::Connection.db_index" in fields
+            ok = from_request and not from_conn
+            R.inst(body.fn, "wake-db:%s#%d" % (why, k), {"use": why, "at": body.loc(i), "from_wakeup_request": from_request, "from_connection_selection": from_conn})
+            if not ok:
+                R.finding(body.fn, "wake-db:%s:not-the-blocking-database" % why,
+                          "the wake path hands %s a database that %s: a blocked client is served from the database it blocked in, whatever SELECT has done to the connection since" % (
+                              why[4:], "is read from the connection's current selection (Connection.db_index)" if from_conn else "does not come from the wake-up request"), body.loc(i))
+            k += 1
+    R.floor("wake_path_db_uses", n)
